@@ -78,6 +78,18 @@ fn member(r: &mut Rng, now: i128, dir: i128) -> Option<Value> {
             let future = if r.chance(3, 4) { dir < 0 } else { dir > 0 };
             Some(json!(if future { *r.pick(&FAR_FUTURE) } else { *r.pick(&FAR_PAST) }))
         }
+        6 => {
+            // an instant that reads as a ROUND local time in its own offset (midnight, top of the hour or of
+            // the minute), mostly on the side where the member must make the parse fail
+            let off = *r.pick(&[0i128, 60, -60, -504, 330, 345, -720, 840, 1, -1439, 1439]) * 60 * NS;
+            let unit = *r.pick(&[DAY, DAY, HOUR, 60 * NS]);
+            let floor = (now + off).div_euclid(unit) * unit - off; // <= now
+            let bad_is_past = dir > 0;
+            let t = if r.chance(3, 4) == bad_is_past { floor } else { floor + unit };
+            let t = t.clamp(T_1971, t_9000() - 1);
+            let st = civil::Style { offset_min: (off / (60 * NS)) as i32, frac_digits: *r.pick(&[0u8, 0, 1, 3, 9]), sep: 'T', zulu: if r.chance(1, 2) { Some('Z') } else { None } };
+            Some(json!(civil::render(t, st)))
+        }
         4 => {
             // a look-alike denoting an instant on the *good* side of now: only strict parsing rejects it
             let t = (now + dir * r.range(DAY, 365 * DAY)).clamp(T_1971, t_9000() - 1);
@@ -124,10 +136,24 @@ fn gen(ctx: &GenCtx, i: u64, prop: &str) -> Option<Run> {
     } else {
         None
     };
+    // one run in four: the default parser also carries ordinary expectations about OTHER claims, which every
+    // token of the run satisfies; the time rules stay in force
+    let sat: Vec<ClaimSpec> = if pinned.is_none() && i % 4 == 1 {
+        let mut s = vec![ClaimSpec::Aud("svc".into())];
+        if r.chance(1, 2) {
+            s.push(ClaimSpec::Custom { key: "tenant".into(), value: json!(7) });
+        }
+        if r.chance(1, 2) {
+            s.push(ClaimSpec::Iss("issuer".into()));
+        }
+        s
+    } else {
+        vec![]
+    };
     let expect = match &pinned {
         Some((true, s, _)) => vec![ClaimSpec::Exp(s.clone())],
         Some((false, s, _)) => vec![ClaimSpec::Nbf(s.clone())],
-        None => vec![],
+        None => sat.clone(),
     };
     let vspec = VerifierSpec { proto, layer: Layer::Batteries, key, footer: footer.clone(), assertion: assertion.clone(), default_validators: true, expect, expect_via_extend: false, validators: vec![], hash_seed: r.next() };
     let control = VerifierSpec { layer: Layer::Generic, default_validators: false, ..vspec.clone() };
@@ -137,7 +163,7 @@ fn gen(ctx: &GenCtx, i: u64, prop: &str) -> Option<Run> {
         if k % 5 == 4 {
             // a PasetoBuilder token whose lifetime is crossed by delay / skew
             let created = now - r.range(0, 2 * HOUR);
-            let opts = IssueOpts { proto, layer: Layer::Batteries, key, footer: footer.clone(), assertion: assertion.clone(), now: created, message: "m".into(), json_payload: None, extra_claims: vec![] };
+            let opts = IssueOpts { proto, layer: Layer::Batteries, key, footer: footer.clone(), assertion: assertion.clone(), now: created, message: "m".into(), json_payload: None, extra_claims: sat.clone() };
             let t = issue(&mut rb, &mut r, opts);
             let at = match r.below(8) {
                 0 => created,
@@ -153,6 +179,9 @@ fn gen(ctx: &GenCtx, i: u64, prop: &str) -> Option<Run> {
         }
         let mut payload = serde_json::Map::new();
         payload.insert("data".into(), json!(ascii!(r, r.usize(12))));
+        for c in &sat {
+            payload.insert(c.key().to_string(), c.value());
+        }
         // bias: the property under check gets the interesting member, the other one is mostly benign
         let (e, nb) = if prop == "C11" {
             (member(&mut r, now, 1), if r.chance(1, 3) { member(&mut r, now, -1) } else if r.chance(1, 2) { None } else { Some(json!(render_canonical(&mut r, now - DAY))) })
